@@ -303,10 +303,51 @@ def rule_w3(ctx: Ctx) -> None:
         return _re.sub(rf"\b{fi.params[1]}\b", "$perm", txt)
 
     a, b = opened_path(st_), opened_path(ld)
+
+    def same_helper_path(x: str, y: str) -> bool:
+        """both are calls of one path helper with the same positional arguments; keyword flags that differ do not enter
+        the helper's returned value"""
+        try:
+            cx, cy = ast.parse(x, mode="eval").body, ast.parse(y, mode="eval").body
+        except SyntaxError:
+            return False
+        while isinstance(cx, ast.Call) and isinstance(cy, ast.Call) and unparse(cx.func) == unparse(cy.func) == "str" and len(cx.args) == len(cy.args) == 1:
+            cx, cy = cx.args[0], cy.args[0]
+        if not (isinstance(cx, ast.Call) and isinstance(cy, ast.Call) and unparse(cx.func) == unparse(cy.func) and [unparse(q) for q in cx.args] == [unparse(q) for q in cy.args]):
+            return False
+        cn = call_name(cx)
+        h = repo.method("PinWords", cn[-1]) if cn else None
+        if h is None:
+            return False
+        kx = {k.arg: unparse(k.value) for k in cx.keywords}
+        ky = {k.arg: unparse(k.value) for k in cy.keywords}
+        differing = {k for k in set(kx) | set(ky) if kx.get(k) != ky.get(k)}
+        rets_h = [n for n in walk_no_nested(h.node) if isinstance(n, ast.Return) and n.value is not None]
+        if not rets_h:
+            return False
+        from ..core import flow_env, subst_names
+
+        for r in rets_h:
+            used = {n.id for n in ast.walk(subst_names(r.value, flow_env(h, r))) if isinstance(n, ast.Name)}
+            if used & differing:
+                return False
+        return True
+
     if a == b:
         ctx.ok("C20-W3", ld.where, f"store and load open the same path expression: {a}", ld.node, ld)
+    elif same_helper_path(a, b):
+        ctx.ok("C20-W3", ld.where, f"store and load obtain the path from the same helper with the same permutation: {b}", ld.node, ld)
     else:
-        ctx.violation("C20-W3", ld, ld.node, f"store opens `{a}` but load opens `{b}`: an automaton stored for a permutation is not the one loaded for it")
+        from ..skelrules import edit_distance, spec_from_src
+
+        try:
+            d = edit_distance(spec_from_src("return " + a.replace("$perm", "a0")), spec_from_src("return " + b.replace("$perm", "a0")), 1)
+        except Exception:  # pylint: disable=broad-except
+            d = None
+        if d == 1:
+            ctx.violation("C20-W3", ld, ld.node, f"store opens `{a}` but load opens `{b}`: an automaton stored for a permutation is not the one loaded for it")
+        else:
+            raise AnalysisError(f"{ld.where}: store opens `{a[:80]}`, load opens `{b[:80]}`; whether these are the same file is not decided")
     if "len($perm)" in a:
         ctx.ok("C20-W3", st_.where, "directory carries the length, file name the entries", st_.node, st_)
 
@@ -327,9 +368,22 @@ def rule_w4(ctx: Ctx, sites: List[OpenSite]) -> None:
             continue
         for h in tr.handlers:
             n += 1
-            reports = any(isinstance(x, ast.Raise) for x in ast.walk(h)) or any(isinstance(x, ast.Call) and call_name(x) and call_name(x)[-1] in ("print", "warning", "error", "warn", "exception", "info") for x in ast.walk(h))
+            REPORTERS = ("print", "warning", "error", "warn", "exception", "info")
+            reports = any(isinstance(x, ast.Raise) for x in ast.walk(h)) or any(isinstance(x, ast.Call) and call_name(x) and call_name(x)[-1] in REPORTERS for x in ast.walk(h))
+            helper_calls = []
+            if not reports:
+                # the handler may delegate to a helper that reports
+                for x in ast.walk(h):
+                    if isinstance(x, ast.Call):
+                        cands, exact = ctx.repo.resolve_call(s.fi, x)
+                        helper_calls.extend(cands)
+                        for c in cands:
+                            if any(isinstance(y, ast.Raise) or (isinstance(y, ast.Call) and call_name(y) and call_name(y)[-1] in REPORTERS) for y in ast.walk(c.node)):
+                                reports = True
             if reports:
                 ctx.ok("C20-W4", s.fi.where, f"handler for {unparse(h.type) if h.type else 'all exceptions'} reports the problem", h, s.fi)
+            elif any(isinstance(x, ast.Call) for x in ast.walk(h)) and not helper_calls:
+                raise AnalysisError(f"{s.fi.where}: the handler calls `{unparse(h.body[0])[:50]}`, which could not be resolved; whether the problem is reported is not decided")
             else:
                 ctx.violation("C20-W4", s.fi, h, "a missing or malformed data file is swallowed silently and other data is returned")
     if n == 0:
@@ -376,10 +430,15 @@ def rule_d1(ctx: Ctx, sites: List[OpenSite]) -> None:
         raise AnalysisError(f"{load.where}: reader not recognised")
     rets = [n for n in walk_no_nested(load.node) if isinstance(n, ast.Return)]
     evals = [n for n in walk_no_nested(load.node) if isinstance(n, ast.Assign) and isinstance(n.value, ast.Call) and call_name(n.value) == ("eval",)]
+    direct = [r for r in rets if isinstance(r.value, ast.Call) and call_name(r.value) == ("eval",)]
     if len(rets) == 1 and len(evals) == 1 and unparse(rets[0].value) == unparse(evals[0].targets[0]):
         ctx.ok("C20-D1", load.where, "returns the evaluated entry", rets[0], load)
-    else:
+    elif len(rets) == 1 and len(direct) == 1 and not evals:
+        ctx.ok("C20-D1", load.where, "returns the evaluated entry", rets[0], load)
+    elif not evals and not direct:
         ctx.violation("C20-D1", load, rets[0] if rets else load.node, "load does not return the automaton evaluated from the file")
+    else:
+        raise AnalysisError(f"{load.where}: how the evaluated entry is returned is not recognised")
     # memo keyed by the permutation only
     if any("lru_cache" in d for d in load.decorators):
         if len(load.params) == 2:
